@@ -663,7 +663,9 @@ static void vsx_child(const struct vsx_scenario *sc, struct vs_result *res, cons
     vs_prefix = prefix;
     vs_prefix_len = plen;
     vs_horizon = sc->horizon > 0 ? sc->horizon : 5000;
-    vs_allow_spurious = sc->spurious;
+    /* spurious condition-variable wake-ups (POSIX allows them) are cost-1 deviations: always in the thorough tier,
+     * in the quick tier only for scenarios that ask for them; .spurious = -1 switches them off */
+    vs_allow_spurious = sc->spurious > 0 || (sc->spurious == 0 && v_thorough());
     vs_allow_timeouts = !sc->no_timeouts;
     vs_user_digest = sc->digest;
     memset(vs_th, 0, sizeof(vs_th));
